@@ -186,6 +186,9 @@ func (r *Rec) Any(id int) any {
 	return "s"
 }
 
+// AnyA is Any for type switches whose initialiser declares variables that must be mentioned.
+func (r *Rec) AnyA(id int, _ ...int) any { return r.Any(id) }
+
 // TA is T for conditions that must mention a variable declared by an initialiser.
 func (r *Rec) TA(id int, _ ...int) bool { return r.T(id) }
 
